@@ -211,6 +211,9 @@ func buildWorld(sc *Scenario) (*world, error) {
 			if o.Kind != "parse" && o.Kind != "scan" && o.Kind != "unmarshal" && w.paths[o.Path] == nil {
 				return nil, harnessf("task %d op %d: path %q does not parse", ti, oi, sc.Paths[o.Path])
 			}
+			if o.IsExec() && w.wild[o.Path] && strings.Contains(sc.Paths[o.Path], "keyvalue") && textualWild(sc.Paths[o.Path]) {
+				return nil, harnessf("task %d op %d: path %q combines keyvalue() with a wildcard (member order of the generated triple)", ti, oi, sc.Paths[o.Path])
+			}
 			if o.IsExec() && w.wild[o.Path] && textualWild(sc.Paths[o.Path]) {
 				// (A parsed tree with a wildcard for a text without one
 				// means Parse returned somebody else's Path: that is for
